@@ -62,62 +62,105 @@ theorem evalAll_map_of_forall {γ : Type} (g : γ → Option α) (h : γ → α)
     have hr := ih (fun y hy => hg y (by simp [hy]))
     simp [evalAll, hx, hr]
 
-/-! ### folds -/
-
-theorem foldlLoop_eq (f : β → α → Option β) (acc : β) (xs : List (Option α)) :
-    foldlLoop f acc xs = (evalAll xs).bind (foldlSpec f acc) := by
-  induction xs generalizing acc with
+theorem evalAll_map_bind {γ : Type} (f : α → Option γ) (xs : List (Option α)) :
+    evalAll (xs.map (fun e => e.bind f)) = (evalAll xs).bind (fun vs => evalAll (vs.map f)) := by
+  induction xs with
   | nil => rfl
   | cons e r ih =>
     cases e with
     | none => rfl
     | some x =>
-      simp only [foldlLoop, evalAll]
-      cases hf : f acc x with
-      | none => cases evalAll r <;> simp [foldlSpec, hf]
-      | some a => dsimp only; rw [ih]; cases evalAll r <;> simp [foldlSpec, hf]
+      simp only [List.map_cons, Option.bind_some, evalAll]
+      cases hf : f x with
+      | none => cases evalAll r <;> simp [evalAll, hf]
+      | some y =>
+        simp only [evalAll, ih]
+        cases evalAll r <;> simp [evalAll, hf]
 
-theorem foldrGo_eq_foldlLoop (f : α → β → Option β) (acc : β) (xs : List (Option α)) :
+/-! ### folds -/
+
+theorem foldl_foldStep_none (f : Option β → Option α → Option β) (xs : List (Option α)) :
+    xs.foldl (foldStep f) none = none := by
+  induction xs with
+  | nil => rfl
+  | cons e r ih => rw [List.foldl_cons]; exact ih
+
+theorem foldlLoop_eq (f : Option β → Option α → Option β) (acc : Option β) (xs : List (Option α)) :
+    foldlLoop f acc xs = foldlSpec f acc xs := by
+  unfold foldlSpec
+  induction xs generalizing acc with
+  | nil => rfl
+  | cons e r ih =>
+    rw [List.foldl_cons]
+    have hs : foldStep f (some acc) e = (f acc e).map some := rfl
+    rw [hs]
+    simp only [foldlLoop]
+    cases hf : f acc e with
+    | none => simp [foldl_foldStep_none]
+    | some a => simpa using ih (some a)
+
+theorem foldrGo_eq_foldlLoop (f : Option α → Option β → Option β) (acc : Option β) (xs : List (Option α)) :
     foldrGo f acc xs = foldlLoop (fun b a => f a b) acc xs := by
   induction xs generalizing acc with
   | nil => rfl
   | cons e r ih =>
+    simp only [foldrGo, foldlLoop]
+    cases f e acc with
+    | none => rfl
+    | some a => exact ih (some a)
+
+theorem foldrLoop_eq (f : Option α → Option β → Option β) (init : Option β) (xs : List (Option α)) :
+    foldrLoop f init xs = foldrSpec f init xs := by
+  unfold foldrLoop foldrSpec
+  rw [foldrGo_eq_foldlLoop, foldlLoop_eq]
+  unfold foldlSpec
+  rw [List.foldl_reverse]
+
+/-- a strict callback: the loop is the round-3 statement "every element is evaluated, then the
+    plain left fold" -/
+theorem foldlLoop_strict (g : β → α → Option β) (init : β) (xs : List (Option α)) :
+    foldlLoop (strict2 g) (some init) xs = (evalAll xs).bind (foldlStrict g init) := by
+  induction xs generalizing init with
+  | nil => rfl
+  | cons e r ih =>
     cases e with
     | none => rfl
     | some x =>
-      simp only [foldrGo, foldlLoop]
-      cases f x acc with
-      | none => rfl
-      | some a => exact ih a
+      simp only [foldlLoop, strict2, Option.bind_some, evalAll]
+      cases hf : g init x with
+      | none => cases evalAll r <;> simp [foldlStrict, hf]
+      | some a => dsimp only; rw [ih]; cases evalAll r <;> simp [foldlStrict, hf]
 
-theorem foldlSpec_append (g : β → α → Option β) (acc : β) (a b : List α) :
-    foldlSpec g acc (a ++ b) = (foldlSpec g acc a).bind (fun m => foldlSpec g m b) := by
+theorem foldlStrict_append (g : β → α → Option β) (acc : β) (a b : List α) :
+    foldlStrict g acc (a ++ b) = (foldlStrict g acc a).bind (fun m => foldlStrict g m b) := by
   induction a generalizing acc with
-  | nil => simp [foldlSpec]
+  | nil => simp [foldlStrict]
   | cons x r ih =>
-    simp only [List.cons_append, foldlSpec]
+    simp only [List.cons_append, foldlStrict]
     cases g acc x with
     | none => rfl
     | some m => simpa using ih m
 
-theorem foldlSpec_reverse (f : α → β → Option β) (init : β) (vs : List α) :
-    foldlSpec (fun b a => f a b) init vs.reverse = foldrSpec f init vs := by
+theorem foldlStrict_reverse (f : α → β → Option β) (init : β) (vs : List α) :
+    foldlStrict (fun b a => f a b) init vs.reverse = foldrStrict f init vs := by
   induction vs with
   | nil => rfl
   | cons x r ih =>
-    rw [List.reverse_cons, foldlSpec_append, ih]
-    simp only [foldrSpec]
-    cases foldrSpec f init r with
+    rw [List.reverse_cons, foldlStrict_append, ih]
+    simp only [foldrStrict]
+    cases foldrStrict f init r with
     | none => rfl
-    | some m => cases h : f x m <;> simp [foldlSpec, h]
+    | some m => cases h : f x m <;> simp [foldlStrict, h]
 
-theorem foldrLoop_eq (f : α → β → Option β) (init : β) (xs : List (Option α)) :
-    foldrLoop f init xs = (evalAll xs).bind (foldrSpec f init) := by
+theorem foldrLoop_strict (g : α → β → Option β) (init : β) (xs : List (Option α)) :
+    foldrLoop (strict2r g) (some init) xs = (evalAll xs).bind (foldrStrict g init) := by
   unfold foldrLoop
-  rw [foldrGo_eq_foldlLoop, foldlLoop_eq, evalAll_reverse]
+  rw [foldrGo_eq_foldlLoop]
+  have hflip : (fun (b : Option β) (a : Option α) => strict2r g a b) = strict2 (fun b a => g a b) := rfl
+  rw [hflip, foldlLoop_strict, evalAll_reverse]
   cases evalAll xs with
   | none => rfl
-  | some vs => simpa using foldlSpec_reverse f init vs
+  | some vs => simpa using foldlStrict_reverse g init vs
 
 /-! ### any / all / member -/
 
@@ -316,58 +359,36 @@ theorem filterLazy_eq (p : Option α → Option Bool) (out xs : List (Option α)
       | none => cases b <;> simp
       | some ys => cases b <;> simp
 
-theorem filterEager_none (p : Option α → Option Bool) (out : List α) (xs : List (Option α))
-    (h : filterEager p out xs = none) : filterSpec p xs = none := by
-  induction xs generalizing out with
-  | nil => simp [filterEager] at h
-  | cons e r ih =>
-    cases e with
-    | none => simp [filterEager] at h
-    | some x =>
-      simp only [filterEager] at h
-      simp only [filterSpec]
-      cases hp : p (some x) with
-      | none => simp
-      | some b =>
-        rw [hp] at h
-        rw [ih _ h]
-        cases b <;> simp
+theorem filterCheap_eq (p : Option α → Option Bool) (out vs : List α) :
+    (filterCheap p out vs).map (fun o => o.map some) =
+      (filterSpec p (vs.map some)).map (out.map some ++ ·) := by
+  induction vs generalizing out with
+  | nil => simp [filterCheap, filterSpec]
+  | cons x r ih =>
+    simp only [filterCheap, List.map_cons, filterSpec]
+    cases hp : p (some x) with
+    | none => simp
+    | some b =>
+      dsimp only
+      rw [ih]
+      cases filterSpec p (r.map some) with
+      | none => cases b <;> simp
+      | some ys => cases b <;> simp
 
-theorem filterEager_done (p : Option α → Option Bool) (out o : List α) (xs : List (Option α))
-    (h : filterEager p out xs = some (some o)) :
-    (filterSpec p xs).map (out.map some ++ ·) = some (o.map some) := by
-  induction xs generalizing out with
-  | nil => simp [filterEager] at h; subst h; simp [filterSpec]
-  | cons e r ih =>
-    cases e with
-    | none => simp [filterEager] at h
-    | some x =>
-      simp only [filterEager] at h
-      simp only [filterSpec]
-      cases hp : p (some x) with
-      | none => rw [hp] at h; simp at h
-      | some b =>
-        rw [hp] at h
-        have := ih _ h
-        cases hs : filterSpec p r with
-        | none => rw [hs] at this; simp at this
-        | some ys =>
-          rw [hs] at this
-          cases b <;> simpa using this
-
-theorem filterM_eq (p : Option α → Option Bool) (xs : List (Option α)) :
-    filterM p xs = filterSpec p xs := by
+theorem filterM_eq (p : Option α → Option Bool) (cheap : Bool) (xs : List (Option α)) :
+    filterM p cheap xs = filterSpec p xs := by
   unfold filterM
-  cases h : filterEager p [] xs with
-  | none => simp [filterEager_none p [] xs h]
-  | some o =>
-    cases o with
-    | none => simpa using filterLazy_eq p [] xs
-    | some out =>
-      have := filterEager_done p [] out xs h
-      cases hs : filterSpec p xs with
-      | none => rw [hs] at this; simp at this
-      | some ys => rw [hs] at this; simpa using this.symm
+  have hlazy : filterLazy p [] xs = filterSpec p xs := by simpa using filterLazy_eq p [] xs
+  cases cheap with
+  | false => simpa using hlazy
+  | true =>
+    simp only [if_true]
+    cases hx : evalAll xs with
+    | none => simpa using hlazy
+    | some vs =>
+      dsimp only
+      rw [filterCheap_eq, evalAll_eq_some hx]
+      cases filterSpec p (vs.map some) <;> simp
 
 theorem mapIdxLoop_eq (f : Nat → Option α → Option β) (i : Nat) (xs : List (Option α))
     (h : i + xs.length ≤ 2 ^ 32) :
@@ -381,37 +402,32 @@ theorem mapIdxLoop_eq (f : Nat → Option α → Option β) (i : Nat) (xs : List
 
 /-! ### flatMap -/
 
-theorem flatMapLoop_eq (f : α → Option (Option (List β))) (out : List β) (xs : List (Option α)) :
+theorem flatMapLoop_eq (f : Option α → Option (Option (List β))) (out : List β) (xs : List (Option α)) :
     flatMapLoop f out xs = (flatMapSpec f xs).map (out ++ ·) := by
   induction xs generalizing out with
   | nil => simp [flatMapLoop, flatMapSpec, evalAll]
   | cons e r ih =>
-    cases e with
-    | none => simp [flatMapLoop, flatMapSpec, evalAll]
-    | some x =>
-      simp only [flatMapLoop, flatMapSpec, evalAll]
-      cases hf : f x with
-      | none => cases evalAll r <;> simp [evalAll, hf]
-      | some o =>
-        cases o with
-        | none =>
-          dsimp only
-          rw [ih]
-          simp only [flatMapSpec]
-          cases evalAll r with
-          | none => simp
-          | some vs =>
-            simp only [Option.bind_some, Option.map_some, List.map_cons, evalAll, hf]
-            cases evalAll (vs.map f) <;> simp
-        | some ys =>
-          dsimp only
-          rw [ih]
-          simp only [flatMapSpec]
-          cases evalAll r with
-          | none => simp
-          | some vs =>
-            simp only [Option.bind_some, Option.map_some, List.map_cons, evalAll, hf]
-            cases evalAll (vs.map f) <;> simp
+    simp only [flatMapLoop, flatMapSpec, List.map_cons]
+    cases hf : f e with
+    | none => simp [evalAll]
+    | some o =>
+      cases o with
+      | none =>
+        dsimp only
+        rw [ih]
+        simp only [flatMapSpec, evalAll]
+        cases evalAll (r.map f) <;> simp
+      | some ys =>
+        dsimp only
+        rw [ih]
+        simp only [flatMapSpec, evalAll]
+        cases evalAll (r.map f) <;> simp
+
+theorem flatMapSpec_strict (f : α → Option (Option (List β))) (xs : List (Option α)) :
+    flatMapSpec (fun e => e.bind f) xs = flatMapStrict f xs := by
+  unfold flatMapSpec flatMapStrict
+  rw [evalAll_map_bind]
+  cases evalAll xs <;> rfl
 
 end GenericHof
 
